@@ -17,6 +17,7 @@ def run(ctx):
     RS.reset_before_read(ctx, "RS", only_owner="store::trigram_index::TrigramIndex", floor=1)
     RT.only_store_add_feeds_index(ctx, "R18.f")
     RT.postings_unconditional(ctx, "R18.g")
+    RT.every_posting_counted(ctx, "R18.h")
     from . import r_rank as RR
     RR.bounded_selection(ctx, "R06.a")
     return info("R18.a: candidates are filtered by count > 0 before the cap; R18.b: cap is size × 10 and the comparator is "
